@@ -267,19 +267,45 @@ def logfmtAll (pairs : List (Bytes × Bytes)) (l : Labels) : Labels :=
 def logfmtFields (fields : List (Bytes × Bytes)) (pairs : List (Bytes × Bytes)) (l : Labels) : Labels :=
   pairs.foldl (fun acc kv => let name := Labels.get fields kv.1; if name.isEmpty then acc else acc.set name kv.2) l
 
+/-- `m[k] = v` on the `map[string]string` `logfmtFields` (an association list; only looked up, never ranged over) -/
+def fieldsPut : List (Bytes × Bytes) → Bytes → Bytes → List (Bytes × Bytes)
+  | [], k, v => [(k, v)]
+  | (k', v') :: rest, k, v => if k' = k then (k, v) :: rest else (k', v') :: fieldsPut rest k v
+
+/-- the loop of `ParserPlanner.Process` that fills `logfmtFields`: for every parameter, in order, whose typed
+    path is not empty and starts with a string, `logfmtFields[path[0]] = name` — a later parameter with the same
+    first segment overwrites the earlier one; parameters with an empty path or a leading index are skipped -/
+def paramFields (params : List Ahead) : List (Bytes × Bytes) :=
+  params.foldl (fun m a => match a.2 with
+    | .key k :: _ => fieldsPut m k a.1
+    | _ => m) []
+
 inductive ParserKind
   | json
-  | jsonParams (params : List Ahead)
+  | jsonParams (params : List Ahead)      -- `ParameterNames[i]`, `parameterTypedValues[i]`, in source order
   | logfmt
-  | logfmtParams (fields : List (Bytes × Bytes))   -- map[string]string: later parameters overwrite earlier ones
+  | logfmtParams (params : List Ahead)
 deriving Repr
+
+/-- the `switch p.Op` of `ParserPlanner.Process`: `json` with parameters is `jsonWithParams`, without `json`;
+    `logfmt` consults `logfmtFields`, which is non-nil exactly when there are parameters; any other parser
+    (`regexp`, `pattern`, `unpack`) is answered `NotSupported` by the in-process engine -/
+inductive ParserOp
+  | json | logfmt | other
+deriving DecidableEq, Repr
+
+def planParser (op : ParserOp) (params : List Ahead) : Option ParserKind :=
+  match op with
+  | .json => some (if params.isEmpty then .json else .jsonParams params)
+  | .logfmt => some (if params.isEmpty then .logfmt else .logfmtParams params)
+  | .other => none
 
 def parseLabels {V} (E : Env V) (k : ParserKind) (msg : Bytes) (l : Labels) : Labels :=
   match k with
   | .json => jsonAll (E.jsonDecode msg) l
   | .jsonParams ps => jsonParams ps (E.jsonDecode msg) l
   | .logfmt => logfmtAll (E.logfmtDecode msg) l
-  | .logfmtParams fs => logfmtFields fs (E.logfmtDecode msg) l
+  | .logfmtParams ps => logfmtFields (paramFields ps) (E.logfmtDecode msg) l
 
 /-- `ParserPlanner.Process.OnEntry` (after the fix: a parse error keeps the entry) -/
 def parserFn {V} (E : Env V) (k : ParserKind) (e : Entry V) : Entry V :=
@@ -575,5 +601,26 @@ def breakScript (bp : Int) (tags : List StageTag) : List StageTag × Option (Lis
   if bp = -2 then (tags, some [])
   else if bp < 0 then (tags, none)
   else (tags.take bp.toNat, some (tags.drop bp.toNat))
+
+/-- what `GetBreakpoint` sees of a modelled stage -/
+def StageK.tag {V} : StageK V → StageTag
+  | .line _ _ => .line
+  | .labelFilter _ => .labelFilter
+  | .parser .json => .jsonNoParams
+  | .parser (.jsonParams _) => .jsonParams
+  | .parser .logfmt => .logfmt
+  | .parser (.logfmtParams _) => .logfmt
+  | .labelFormat _ => .labelFormat
+  | .lineFormat _ => .lineFormat
+  | .drop _ _ => .drop
+  | .unwrap _ => .unwrap
+
+/-- `logql_transpiler_v2.Plan` on a pipeline of modelled stages: `GetBreakpoint`, then `breakScript` — the stages
+    handed to `clickhouse_planner.Plan` and, when the pipeline is split, the stages handed to `internal_planner.Plan`.
+    The second component is also *what is left in the parsed script object afterwards*: `breakScript` does not copy,
+    it assigns `_script.Pipelines = _script.Pipelines[breakpoint:]` in the script it was given. -/
+def splitPipeline {V} (ss : List (StageK V)) : List (StageK V) × Option (List (StageK V)) :=
+  let bp := getBreakpoint (ss.map StageK.tag) false
+  if bp < 0 then (ss, none) else (ss.take bp.toNat, some (ss.drop bp.toNat))
 
 end Qryn.Read
